@@ -330,6 +330,13 @@ def rule_P3(F, R):
                 sv = str(v[1]).strip('"')
                 if sv.endswith("header::CONTENT_TYPE"):
                     return "Content-Type"
+                cst = F.consts.get(sv)
+                if cst is not None:
+                    # a crate constant naming the header: use its evaluated string
+                    m_ = re.search(r'"([^"]*)"', str(cst.get("val", "")))
+                    if m_:
+                        return m_.group(1)
+                    return str(cst.get("val", sv)).strip('"')
                 return sv
             return show(v)
         headers = [(_hname(e["args"][1]), e["args"][2]) for e in p0.events if e["callee"].endswith("RequestBuilder::header")]
